@@ -3,28 +3,11 @@
 package agent
 
 import (
-	"github.com/postalsys/muti-metroo/internal/exit"
-	"github.com/postalsys/muti-metroo/internal/forward"
-	"github.com/postalsys/muti-metroo/internal/identity"
-	"github.com/postalsys/muti-metroo/internal/protocol"
 	"github.com/postalsys/muti-metroo/internal/socks5"
 )
 
 // Verification-only accessors (policy family: C19-C23). Add-only; they call
 // the unexported production code paths unchanged.
-
-// VerifProcessFrame feeds one frame into the agent's frame dispatcher exactly
-// as the peer manager's frame callback does.
-func (a *Agent) VerifProcessFrame(peerID identity.AgentID, frame *protocol.Frame) {
-	a.processFrame(peerID, frame)
-}
-
-// VerifExitHandler returns the exit handler (nil when none exists yet).
-func (a *Agent) VerifExitHandler() *exit.Handler { return a.exitHandler }
-
-// VerifForwardHandler returns the port-forward exit handler (nil when no
-// endpoints are configured).
-func (a *Agent) VerifForwardHandler() *forward.Handler { return a.forwardHandler }
 
 // VerifSOCKS5Server returns the SOCKS5 server built by initComponents.
 func (a *Agent) VerifSOCKS5Server() *socks5.Server { return a.socks5Srv }
